@@ -29,6 +29,11 @@ Confs_mixed == {ConfD(HC_ad, <<"a", "d">>, "asap", 2, [d1 |-> Dmn(b, t)]) : b \i
 Confs_mixed_a == {ConfD([a |-> Hdl({"create", "update"})], <<"a">>, "asap", 2, [d1 |-> Dmn(1, t)]) : t \in {0, 2}}
 \* witness: the daemon alone holds the object (every mandatory deletion handler is done, the finalizer is still there)
 NoHeldByDaemon == ~(obj.deleting /\ Blocked(obj) /\ Mandatory \subseteq gh.deldone /\ \E h \in DHs : Entitled(h))
+\* a handler with two sub-handlers beside a plain one
+ConfS(hc, order, lc, ct, subs) == [hc |-> [h \in H |-> IF h \in DOMAIN hc THEN hc[h] ELSE None], order |-> order, lifecycle |-> lc, ctimeout |-> ct,
+                                   subs |-> [h \in H |-> IF h \in DOMAIN subs THEN subs[h] ELSE <<>>]]
+HC_pq == [p |-> Hdl({"create", "update"}), q |-> Hdl({"create", "update"})]
+Confs_sub == {ConfS(HC_pq, <<"p", "q">>, lc, 2, [p |-> <<"p/x", "p/y">>]) : lc \in {"one", "all", "asap"}}
 NoDoors == {}
 AllDoors == {"kill", "lost", "late", "stop"}
 LateOnly == {"late"}
